@@ -402,3 +402,77 @@ def specdoc(prop, tier, seed):
                            "statements; BasesAdmissible/OrderFree/Bounds are checked by TLC",
                            "scalars of the wrong JSON type in string slots, 'v'-prefixed versions and duplicate keys are not generated (statement silent)",
                            "tokens are rendered by harness/specdoc.go; one concrete spelling per token"])
+
+
+# ---------------------------------------------------------------------------------------
+# C10: atomic publication - spec/SpecWrite.tla (protocol), spec/FSTrace.tla (trace validation)
+
+def fstrace_validate(events):
+    """events: concatenated FSTrace events (with reset markers).  Returns TLCResult."""
+    f = scratch_file("fstrace.ndjson")
+    write_rows(events, f)
+    try:
+        return run_tlc("FSTrace", "FSTrace.cfg", env_extra={"TRACE": f}, workers=1, timeout=900)
+    finally:
+        os.unlink(f)
+
+
+@check("C10")
+def c10(prop, tier, seed):
+    import strace2ndjson, shutil, tempfile
+    vlib.build_harness()
+    # 1. the protocol model: every interleaving of writer(s), crash, failures and scanner
+    cfgs = ["SpecWrite.cfg", "SpecWrite_new.cfg"] + (["SpecWrite_3w.cfg"] if tier == "thorough" else [])
+    mcs = parallel(*[(lambda c=c: run_tlc("SpecWrite", c, deadlock=True, timeout=1800, workers=4)) for c in cfgs])
+    for r, c in zip(mcs, cfgs):
+        model_must_hold(r, c)
+    # 2. the real writer: pause / crash / failing writes / strace / stress
+    sdir = vlib.mkscratch("strace")
+    try:
+        res, err = run_harness("writer", ["-seed", seed, "-tier", tier, "-strace-dir", sdir,
+                                          "-stress", "20s" if tier == "thorough" else "3s"], timeout=3000)
+        tool_errors(res["mismatches"])
+        mism = tagged(res["mismatches"], prop)
+        index = json.load(open(os.path.join(sdir, "index.json")))
+        events, ntr, problems = [], 0, []
+        per_trace = []
+        for rec in index:
+            ev, pr = strace2ndjson.convert(rec["file"], rec["dir"], rec["newlen"], rec["oldlen"], rec["target"])
+            problems += pr
+            if len(ev) <= 2:
+                raise ToolFailure("strace trace %s has no file-system event (strace not working?)" % rec["file"])
+            per_trace.append((rec, ev))
+            events += ev
+            ntr += 1
+        tr = fstrace_validate(events)
+        if tr.violated:
+            # find the offending trace by validating them one by one
+            for rec, ev in per_trace:
+                one = fstrace_validate(ev)
+                if one.violated:
+                    mism.append({"what": "trace-violates-" + ",".join(one.violated), "props": [prop], "case": rec["file"], "step": -1,
+                                 "want": "every state of the system-call trace shows only complete old/new content under Spec names",
+                                 "got": [e for e in ev][:40], "row": rec["scenario"], "note": "\n".join(one.trace[:40])})
+        elif "TraceAccepted" in tr.raw_tail and "violated" in tr.raw_tail:
+            raise ToolFailure("SPEC-DRIFT: the trace specification could not consume a real trace\n" + tr.raw_tail[-1500:])
+        cov = {"states": sum(r.distinct for r in mcs) + tr.distinct, "transitions": sum(r.generated for r in mcs) + tr.generated,
+               "traces_validated_against_impl": ntr, "trace_events": len(events),
+               "evaluations": res["evaluations"], "distinct_nontrivial": res["distinct_nontrivial"],
+               "hook_points_observed": res.get("extra", {}).get("hook_points_seen"), "stress_reads": res.get("extra", {}).get("stress_reads"),
+               "stress_writes": res.get("extra", {}).get("stress_writes"),
+               "rule": "protocol model: TLC explores every interleaving of 2 (thorough: 3) writers with a crash at every step, failure of create / "
+                       "write at every chunk / rename, and a scanner whose open and read are separate steps, with and without a previous file. "
+                       "Real code, for json/yaml x fresh/overwrite (x 3 sizes in thorough): the directory is inspected (byte comparison with the "
+                       "complete old/new file + a real cache scan) at every write.* hook point, after SIGKILL at every point, after a write failing "
+                       "at every 7th (thorough: every) offset via RLIMIT_FSIZE; strace traces of a successful and two failing writes are validated "
+                       "by TLC against the generic FSTrace specification with the invariants evaluated in every state; a writer/reader stress. "
+                       "every scenario is non-trivial",
+               "samples": [json.loads(res["samples"][0]) if isinstance(res["samples"][0], str) else res["samples"][0], events[:12]],
+               "exhaustive": True, "strace_problems": problems[:5],
+               "checker_cmd": "tlc SpecWrite ; harness writer ; tlc FSTrace (TRACE=<strace events>)"}
+        return {"level": "model_checking", "coverage": cov, "mismatches": mism, "replay_with": "",
+                "assumptions": ["crash = death of the writer process; durability across power loss is not claimed by the property",
+                                "strace's decoding and tools/strace2ndjson.py are trusted for the trace binding; the hook-point inspection is an independent second reading",
+                                "write failures are injected with RLIMIT_FSIZE (EFBIG), standing in for ENOSPC/EDQUOT/EIO"]}
+    finally:
+        shutil.rmtree(sdir, ignore_errors=True)
